@@ -25,6 +25,7 @@ Inductive acall :=
 | AUpd (x : op V)              (* the other async writers: set_if_not_eq / set_if_hash_not_eq / take /
                                   update / update_if (.await): write lock, then the state method *)
 | AGet                         (* get().await *)
+| ASubscribe                   (* subscribe().await: read lock, a new subscriber that has seen the current version *)
 | AWrite                       (* write().await: the guard is kept until ADropGuard *)
 | ARead                        (* read().await: the guard is kept until ADropGuard *)
 | ANextNow (k : nat)           (* subscriber k: next_now().await *)
@@ -113,6 +114,11 @@ Definition run_body (fixed_next_ref : bool) (s : astate) (id : nat) (c : acall) 
   | AUpd x =>
       match step veq heq vdefault o x with
       | Ok (o', r, w) => finish (with_obs o') r w maxp
+      | Panic => (s, None, [])
+      end
+  | ASubscribe =>
+      match step veq heq vdefault o WSubscribe with
+      | Ok (o', r, w) => finish (with_obs o') r w 1
       | Panic => (s, None, [])
       end
   | AGet =>
@@ -290,6 +296,7 @@ Definition sync_op (c : acall) : option (op V) :=
   match c with
   | ASet v => Some (WSet v)
   | AUpd x => Some x
+  | ASubscribe => Some WSubscribe
   | AGet | ARead => Some WGet
   | ANextNow k => Some (SNextNow k)
   | ANext k | ANextRef k | AStreamNext k => Some (SPoll k)
